@@ -128,6 +128,8 @@ def template_init(j=0, refserver=False):
     _state['provided_sensitive'] = HW.provided_sensitive()
     HW.add_default_tweaks(_state['provided_sensitive'])
     _state['pkg_listing'] = None
+    # object addresses (id()) seen by repository code are simulated (kernel._sim_id)
+    K.install_id_seam(('geophires_x', 'geophires_x_client', 'geophires_monte_carlo', 'hip_ra', 'hip_ra_x'))
     if _state.get('refsrv') is not None:
         _ref_via_server(None)
 
@@ -259,7 +261,8 @@ def _ref_via_server(args):
 
 
 def _ref_compute(args):
-    kind, content, refdir = args
+    kind, content, refdir = args[:3]
+    params = args[3] if len(args) > 3 else None     # the request as a base file plus a params dict (the client's other way in)
     d = tempfile.mkdtemp(prefix='ref-', dir=refdir)
     try:
         tempfile.tempdir = os.path.join(d, 'tmp')
@@ -286,7 +289,9 @@ def _ref_compute(args):
             else:
                 from geophires_x_client import GeophiresInputParameters
                 from geophires_x_client import GeophiresXClient
-                r = GeophiresXClient(enable_caching=False).get_geophires_result(GeophiresInputParameters(from_file_path=Path(p)))
+                ip_ = GeophiresInputParameters(from_file_path=Path(p)) if params is None else \
+                    GeophiresInputParameters(params=dict(params), from_file_path=Path(p))
+                r = GeophiresXClient(enable_caching=False).get_geophires_result(ip_)
                 with open(r.output_file_path) as f:
                     out['report'] = canon_report(f.read(), d)
                 out['parsed'] = canon_parsed(r.result)
@@ -331,6 +336,25 @@ def post_run(rec):
             v['cause'] = f"{v['cause']}"
             v['was'] = f"{v['property']} {v['cls']}"
             v['property'], v['cls'] = 'C08', 'hashseed_dependent_result'
+        elif rc.get('params') is not None and rc.get('base') is not None:
+            # the request came in as base file + params dict: run alone THAT way in a pristine process.  If that gives what the
+            # history got, the difference is not a matter of history: the client's two ways of stating the same input disagree
+            # (C20: all entry points give the same answer)
+            key1 = (rc['kd'], rc['base'], json.dumps(rc['params'], sort_keys=True))
+            if key1 not in same:
+                same[key1] = runner.run_in_child(_ref_compute, (rc['kd'], rc['base'], os.environ.get('DSIM_REFDIR') or K.scratch_root(),
+                                                                rc['params']), 240)
+            r1 = same[key1]
+            if r1.get('harness_error'):
+                continue
+            val1 = r1.get('outcome') if a == 'outcome' else (sha(r1[a]) if r1.get(a) is not None else None)
+            rec['stats']['params_entry_rechecks'] = rec['stats'].get('params_entry_rechecks', 0) + 1
+            if val1 == rc['got']:
+                v['detail'] = ('run alone in a fresh process as base file + params dict the request gives what this operation gave; as one file '
+                               'with the same lines it gives something else: ' + v['detail'])
+                v['was'] = f"{v['property']} {v['cls']}"
+                v['property'], v['cls'] = 'C20', 'entrypoint_report_diff'
+                v['cause'] = 'client_params_vs_one_file_' + a
     return rec
 
 
@@ -674,9 +698,9 @@ def gen_history(cs, templates, tier, force=None):
             if slots and cs.choose(4, 'frun') != 0:
                 # a fault while idle tests nothing: most armed faults are followed at once by a run on an existing slot
                 sl = sorted(slots)[cs.choose(len(slots), 'fslot')]
-                entry = 'hip' if slots[sl]['kind'] == 'hip' else ['client', 'cli', 'client_params', 'main_argv'][cs.choose(4, 'fentry')]
+                entry = 'hip' if slots[sl]['kind'] == 'hip' else ['client', 'cli', 'client_params', 'main_argv', 'client'][cs.choose(5, 'fentry')]
                 mk_run(entry, sl)
-                if cs.choose(2, 'fretry') == 1:
+                if cs.choose(3, 'fretry') != 0:
                     # ... and the caller tries the very same request again (same client, same file, same output): the obstacle was
                     # transient, the second attempt is an ordinary request
                     ops.append(dict(ops[-1]))
@@ -891,6 +915,9 @@ class Exec:
         """a violation judged against the reference: carries what is needed to re-judge it against a same-hash-seed reference"""
         self.V(prop, cls, cause, detail)
         self.viol[-1]['_recheck'] = {'kd': kd, 'txt': txt, 'aspect': aspect, 'got': got}
+        cp = getattr(self, 'cur_params', None)
+        if cp is not None:
+            self.viol[-1]['_recheck'].update(base=cp[0], params=cp[1])
 
     def probe(self, name):
         self.probes[name] = self.probes.get(name, 0) + 1
@@ -1124,8 +1151,10 @@ class Exec:
         if self.last_failed_client and entry in ('client', 'client_params') and op['client'] in self.last_failed_client:
             self.probe('run_after_failed_run_same_client')
         eff = txt
+        self.cur_params = None
         if entry == 'client_params' and txt is not None:
             eff = txt + ''.join(f'{a}, {b}\n' for a, b in op['params'].items())
+            self.cur_params = (txt, {str(a): str(b) for a, b in op['params'].items()})
         exp = self.expected(kd, eff)
         if entry == 'client' and op['client'] != 1:
             prev = self.client_seen.get((op['client'], op['slot']))
